@@ -97,3 +97,7 @@ func VerifHarness_C17_CustomFunctions() {
 	}
 	verifrt.Reach("end")
 }
+
+// C17: each invocation of a custom function receives the current input collection and its own evaluated arguments,
+// also when invocations of the same function are nested or follow one another (see verifCustomFunctionIsReentrant).
+func VerifHarness_C17_CustomFunctionInvocationsAreIndependent() { verifCustomFunctionIsReentrant() }
